@@ -45,7 +45,7 @@ PROT_SPECS = [{}, {'empty_is_none': True}, {'min_occurs': 1, 'nillable': False}]
 MODEL_KEYS = ['min_occurs', 'max_occurs', 'nillable', 'default', 'values', 'sub_name', 'exc', 'exc_table', 'exc_db',
               'validate_on_assignment', 'read_only', 'min_len', 'max_len', 'pattern', 'ge', 'gt', 'le', 'lt',
               'total_digits', 'fraction_digits', 'max_str_len', 'min_bound', 'max_bound', 'encoding', 'foo',
-              'primary_key', 'index', 'unique', '_pattern_re', 'empty_is_none']
+              'primary_key', 'index', 'unique', '_pattern_re', 'empty_is_none', 'order', 'sub_ns']
 # attributes that every customisation (re)creates for its own bookkeeping; never part of the observation
 BOOKKEEPING = {'parent_variant', 'child_attrs', 'child_attrs_all', 'child_attrs_noexc', 'sqla_mapper_args', 'methods'}
 
@@ -218,6 +218,7 @@ class Impl:
             self.prots.append(p)
         self.registry = {}      # id -> class: everything ever reachable from the pool (kept alive)
         self.created = 0
+        self.handed = None
         self.walk()
 
     # ---- reachability
@@ -288,8 +289,26 @@ class Impl:
                     kw['child_attrs_all'] = self.kw(op['caa'])
                 if op.get('prot') is not None:
                     kw['prot'] = self.prots[op['prot']]
-                if is_complex(src) or kind_of(src) == 'xmlattr':
+                if op.get('nx') is not None:
+                    kw['child_attrs_noexc'] = {n: self.kw(v) for n, v in op['nx']}
+                if op.get('sa') is not None:
+                    kw['serializer_attrs'] = self.kw(op['sa'])
+                import copy as _copy
+                self.handed = (kw, _copy.deepcopy({a: b for a, b in kw.items() if isinstance(b, dict)}))
+                if kind_of(src) == 'xmlattr' and op.get('getitem'):
+                    new = src[kw]            # ModelBaseMeta.__getitem__
+                elif is_complex(src) or kind_of(src) == 'xmlattr':
                     new = src.customize(**kw)
+                elif op.get('pos'):
+                    # Decimal(total_digits[, fraction_digits]) / Unicode(max_len): the positional spellings
+                    kw = dict(kw)
+                    if kind_of(src) == 'number':
+                        args = [kw.pop('total_digits')] + ([kw.pop('fraction_digits')] if op['pos'] == 2 else [])
+                        if op['pos'] == 1:
+                            kw.pop('fraction_digits')
+                    else:
+                        args = [kw.pop('max_len')]
+                    new = src(*args, **kw)
                 else:
                     new = src(**kw)          # "calling a primitive with constraints"
             elif k == 'array':
@@ -317,13 +336,30 @@ class Impl:
                     # class K(Base):  class Attributes(Base.Attributes): <assignments>
                     body['Attributes'] = type(base.Attributes)('Attributes', (base.Attributes,), dict(self.kw(op['attrs'])))
                 bases = tuple(self.pool[m] for m in op.get('mixins') or ()) + (base,)
-                new = cx.ComplexModelMeta(op['name'], bases, body)
+                if op.get('produce'):
+                    new = cx.ComplexModel.produce(op['ns'], op['name'], [(n, self.pool[t]) for n, t in op['fields']])
+                    new.__module__ = 'c15hist'
+                else:
+                    new = cx.ComplexModelMeta(op['name'], bases, body)
             elif k == 'append':
                 self.pool[op['c']].append_field(op['name'], self.pool[op['t']])
             elif k == 'insert':
                 self.pool[op['c']].insert_field(op['idx'], op['name'], self.pool[op['t']])
             elif k == 'xmlattr':
                 new = cx.XmlAttribute(self.pool[op['src']])
+            elif k == 'xcust':
+                src = self.pool[op['src']]
+                kw = xkw_build(self, op['x'])
+                kw.update(self.kw(op.get('kw') or []))
+                how = op.get('how')
+                if how == 'store_as':
+                    new = src.store_as('json')
+                elif how == 'novalidate_freq':
+                    new = src.novalidate_freq()
+                elif is_complex(src) or kind_of(src) == 'xmlattr':
+                    new = src.customize(**kw)
+                else:
+                    new = src(**kw)
             else:
                 raise core.Infra('unknown op %r' % (op,))
         except core.Infra:
@@ -402,6 +438,9 @@ def shallow(c):
         o['ti'] = [[n, id(t)] for n, t in ti.items()]
         if is_complex(c):
             o['flat'] = list(c.get_flat_type_info(c).keys())
+            o['ids'] = [n for n, _ in c.get_identifiers()]           # primary-key fields
+    if hasattr(c, 'ancestors'):
+        o['ancestors'] = [id(x) for x in c.ancestors()]
     return o
 
 
@@ -464,6 +503,107 @@ class SchemaObs:
             self.impl.walk()
 
 
+# ------------------------------------------------------------------------------------ keywords outside the Lean model (T3 only)
+def _x_upper(v):
+    return v
+
+
+def _x_lower(v):
+    return v
+
+
+def _x_factory():
+    return 7
+
+
+X_KINDS = {'parser': ('any',), 'in_cast': ('any',), 'sanitizer': ('any',), 'out_cast': ('any',), 'logged': ('any',),
+           'default_factory': ('simple',), 'values_dict': ('unicode',), 'pa': ('any',), 'prot_attrs': ('any',),
+           'fk': ('simple',), 'store_as': ('complex',), 'encoding': ('bytes',)}
+
+
+def xkw_build(impl, names):
+    """the real keyword arguments for the symbolic names of an `xcust` operation"""
+    from spyne.protocol import ProtocolBase
+    kw = {}
+    for n in names:
+        if n in ('parser', 'in_cast'):
+            kw[n] = _x_upper
+        elif n in ('sanitizer', 'out_cast'):
+            kw[n] = _x_lower
+        elif n == 'logged':
+            kw[n] = False
+        elif n == 'default_factory':
+            kw[n] = _x_factory
+        elif n == 'values_dict':
+            kw[n] = {'a': 'letter a', 'b': 'letter b'}
+        elif n in ('pa', 'prot_attrs'):
+            kw[n] = {impl.prots[1]: {'min_occurs': 1}, (ProtocolBase, impl.prots[2]): {'exc': True}}
+        elif n == 'fk':
+            kw[n] = 'c15_table.id'
+        elif n == 'store_as':
+            kw[n] = 'json'
+        elif n == 'encoding':
+            kw[n] = 'hex'
+    return kw
+
+
+def xkw_check(impl, new, src, names, report):
+    """exactly what was asked for, in a container of the derived class's own"""
+    from spyne.protocol import ProtocolBase
+    A, S = new.Attributes, src.Attributes
+    for n in names:
+        if n in ('parser', 'in_cast') and A.parser is not _x_upper:
+            report('exact:x:parser', 'parser=f requested, the derived class has %r' % (A.parser,))
+        if n in ('sanitizer', 'out_cast') and A.sanitizer is not _x_lower:
+            report('exact:x:sanitizer', 'sanitizer=f requested, the derived class has %r' % (A.sanitizer,))
+        if n == 'logged' and A.logged is not False:
+            report('exact:x:logged', 'logged=False requested, the derived class has %r' % (A.logged,))
+        if n == 'default_factory' and A.default_factory is not _x_factory:
+            report('exact:x:default_factory', 'default_factory=f requested, the derived class has %r' % (A.default_factory,))
+        if n == 'values_dict' and not (list(A.values) == ['a', 'b'] and dict(A.values_dict) == {'a': 'letter a', 'b': 'letter b'}):
+            report('exact:x:values_dict', 'values_dict requested, values=%r values_dict=%r' % (A.values, A.values_dict))
+        if n in ('pa', 'prot_attrs'):
+            pa = A.prot_attrs
+            ok = pa is not None and pa.get(impl.prots[1]) == {'min_occurs': 1} and pa.get(impl.prots[2]) == {'exc': True} \
+                and pa.get(ProtocolBase) == {'exc': True}
+            if not ok:
+                report('exact:x:prot_attrs', 'prot_attrs requested, the derived class has %r' % (pa,))
+            if pa is not None and pa is S.prot_attrs:
+                report('alias:prot_attrs', 'the prot_attrs dict of the derived class is the one of its source')
+        if n == 'fk':
+            from sqlalchemy.schema import ForeignKey
+            t = A.sqla_column_args[0]
+            if not (len(t) == len((S.sqla_column_args or ((), {}))[0]) + 1 and isinstance(t[-1], ForeignKey)):
+                report('exact:x:foreign_key', 'foreign_key requested, column args are %r' % (t,))
+        if n == 'store_as':
+            from spyne.model import json as pssm_json
+            if not isinstance(A.store_as, pssm_json):
+                report('exact:x:store_as', "store_as='json' requested, the derived class has %r" % (A.store_as,))
+        if n == 'encoding':
+            from spyne.model.binary import BINARY_ENCODING_HEX
+            if A.encoding != BINARY_ENCODING_HEX or new.__type_name__ != 'hexBinary':
+                report('exact:x:encoding', "encoding='hex' requested: encoding=%r type name %r" % (A.encoding, new.__type_name__))
+
+
+def gen_xop(rng, impl):
+    pool = impl.pool
+    kinds = [kind_of(c) for c in pool]
+    i = rng.randrange(len(pool))
+    k = kinds[i]
+    fam = 'complex' if k in ('complex', 'array', 'iterable') else ('simple' if k in ('number', 'unicode', 'simple', 'bytes') else k)
+    names = [n for n, ks in X_KINDS.items() if 'any' in ks or fam in ks or k in ks]
+    if k == 'xmlattr':
+        names = [n for n in names if n not in ('fk',)]
+    op = {'k': 'xcust', 'src': i, 'x': rng.sample(names, rng.choice([1, 1, 2])), 'kw': gen_kw(rng, 'any', n=rng.choice([0, 1]), for_child=True)}
+    if 'fk' in op['x'] and 'pk' in dict(op['kw']):
+        pass
+    if fam == 'complex' and k == 'complex' and rng.random() < 0.25:
+        op['how'] = rng.choice(['store_as', 'novalidate_freq'])
+        op['x'] = ['store_as'] if op['how'] == 'store_as' else []
+        op['kw'] = []
+    return op
+
+
 # ------------------------------------------------------------------------------------ history generator
 COMMON_KW = {
     'min_occurs': [0, 1, 2], 'max_occurs': [1, 2, 5, 'unbounded', INF, 'inf'], 'nillable': [True, False],
@@ -472,7 +612,7 @@ COMMON_KW = {
     'foo': [1, 'bar'], '_private': [1], 'doc': ['some text'],
     # keywords the loop handles by writing into the sqla_column_args dict / plain database attributes
     'pk': [True], 'primary_key': [True, False], 'autoincrement': [True], 'onupdate': ['now'], 'server_default': ['x', '0'],
-    'index': [True, 'btree'], 'unique': [True],
+    'index': [True, 'btree'], 'unique': [True], 'sub_ns': ['ns.sub'], 'order': [0, 1, 2],
 }
 NUMBER_KW = {'ge': [-5, 0, 3, 100, 300], 'gt': [-5, 0, 3, 100, 255, 300], 'le': [-5, 0, 3, 100, 300, 2 ** 31],
              'lt': [-5, 0, 3, 100, 300], 'total_digits': [3, 10], 'fraction_digits': [0, 2, 12],
@@ -550,6 +690,18 @@ def gen_op(rng, impl, step, serial):
         if rng.random() < 0.15:
             op['prot'] = rng.randrange(len(PROT_SPECS))
             op['kw'] = [p for p in kw if p[0] not in ('type_name',)]
+        elif kinds[i] == 'xmlattr' and rng.random() < 0.5:
+            op['getitem'] = True
+        elif k == 'number' and rng.random() < 0.12:
+            # positional spelling: Decimal(td) means total_digits=td, fraction_digits=0; Decimal(td, fd)
+            two = rng.random() < 0.5
+            td, fd = rng.choice([3, 10]), (rng.choice([0, 2]) if two else 0)
+            op['kw'] = [p for p in kw if p[0] not in ('total_digits', 'fraction_digits')] + \
+                       [['total_digits', aval(td)], ['fraction_digits', aval(fd)]]
+            op['pos'] = 2 if two else 1
+        elif k == 'unicode' and rng.random() < 0.12:
+            op['kw'] = [p for p in kw if p[0] != 'max_len'] + [['max_len', aval(rng.choice([2, 5, 10]))]]
+            op['pos'] = 1
         return op
     if name in ('cust_complex', 'cust_array'):
         i = rng.choice(cplx if name == 'cust_complex' else arrs)
@@ -564,6 +716,16 @@ def gen_op(rng, impl, step, serial):
             op['caa'] = gen_kw(rng, 'any', n=rng.choice([1, 1, 2]), for_child=True)
         if rng.random() < 0.15:
             op['prot'] = rng.randrange(len(PROT_SPECS))
+        if name == 'cust_array' and rng.random() < 0.5:
+            # serializer_attrs: the member is customised (alone: no child attributes next to it)
+            op['sa'] = gen_kw(rng, 'any', n=rng.choice([1, 2]), for_child=True)
+            op.pop('ca', None)
+            op.pop('caa', None)
+            return op
+        if name == 'cust_complex' and rng.random() < 0.15:
+            cand = names + ['zz', rng.choice(FIELD_NAMES)]
+            ks = rng.sample(cand, min(len(cand), rng.choice([1, 2])))
+            op['nx'] = [[n, gen_kw(rng, 'any', n=rng.choice([0, 1, 2]), for_child=True)] for n in dict.fromkeys(ks)]
         if r >= 0.78:
             # both dicts, a field name that does not exist yet, the same key with DIFFERENT values
             table = {'min_occurs': [0, 1, 2], 'max_occurs': [1, 2, 5], 'nillable': [True, False], 'sub_name': ['alt', 'other'],
@@ -587,7 +749,7 @@ def gen_op(rng, impl, step, serial):
                 and not getattr(pool[i], '__mixin__', False)]      # (a mixin as only base: use 'mixins')
         if cand and rng.random() < 0.55:
             base = rng.choice(cand)
-        op = {'k': 'sub', 'name': 'K%d_%d' % (serial, step), 'base': base, 'ns': rng.choice([None, 'ns.a', 'ns.k']),
+        op = {'k': 'sub', 'name': 'K%s_%d' % (serial, step), 'base': base, 'ns': rng.choice([None, 'ns.a', 'ns.k']),
               'fields': fields}
         mixable = [i for i in cplx if pool[i].__dict__.get('__mixin__') is True and pool[i].__orig__ is None]
         if base is None and rng.random() < 0.12 and nf >= 1:
@@ -595,14 +757,21 @@ def gen_op(rng, impl, step, serial):
             op['ns'] = op['ns'] or 'ns.a'
         if base is not None:        # (Python refuses a mixin that the base class already has: no consistent MRO)
             mixable = [i for i in mixable if pool[i] not in pool[base].__mro__]
+        if base is None and 'asMixin' not in op and rng.random() < 0.2:
+            op['produce'] = True            # ComplexModel.produce(namespace, type_name, members)
+            op['ns'] = op['ns'] or 'ns.a'
+            return op
         if 'asMixin' not in op and mixable and rng.random() < 0.5:
             op['mixins'] = rng.sample(mixable, min(len(mixable), rng.choice([1, 1, 2])))
             op['ns'] = op['ns'] or 'ns.a'
         if rng.random() < 0.4:
             # the class declares its own `class Attributes(Base.Attributes)`, with or without assignments
             table = {'min_occurs': [0, 1], 'max_occurs': [1, 2], 'nillable': [True, False], 'sub_name': ['alt'],
-                     'exc': [False], 'foo': [42]}
+                     'exc': [False], 'foo': [42], 'nullable': [True, False]}
+            # (nillable and nullable in one class body must agree: AttributesMeta asserts it)
             ks = rng.sample(sorted(table), rng.choice([0, 0, 1, 2]))
+            if 'nullable' in ks and 'nillable' in ks:
+                ks.remove('nillable')
             op['attrs'] = [[a, aval(rng.choice(table[a]))] for a in ks]
         return op
     if name == 'array':
@@ -939,6 +1108,8 @@ def check_exact(ctx, new, src, kw, opk, report):
     for k in dir(src.Attributes):
         if k.startswith('_') or k in BOOKKEEPING or k in req or k in derived:
             continue
+        if k == 'nullable' and 'nillable' in req:
+            continue        # (one property; a class body that assigned `nullable` makes dir() list it)
         a, b = cval(getattr(src.Attributes, k)), cval(getattr(new.Attributes, k, None))
         if a != b:
             report('exact:unrequested:%s:%s' % (kind_of(src), k),
@@ -1080,7 +1251,7 @@ class Oracle:
             after = cur.get(i)
             if after is None or i in allowed:
                 continue
-            changed = sorted(x for x in after if x != 'flat' and after[x] != before.get(x))
+            changed = sorted(x for x in after if x not in ('flat', 'ids') and after[x] != before.get(x))
             if 'schema' in changed and (str(after['schema']).startswith('exc:') or str(before.get('schema')).startswith('exc:')):
                 # the schema generator itself fails on the interface this class now belongs to
                 changed = [x for x in changed if x not in ('schema', 'schema_names')]
@@ -1143,7 +1314,17 @@ class Oracle:
                                 'a later customisation of either writes into both' % (name, c.__name__, k))
         # ---- flat order = parents first, everywhere
         for i, c in impl.registry.items():
+            if 'ancestors' in cur[i]:
+                chain, x = [], getattr(c, '__extends__', None)
+                while x is not None:
+                    chain.append(id(x))
+                    x = getattr(x, '__extends__', None)
+                if cur[i]['ancestors'] != chain:
+                    self.report('order:ancestors', 'ancestors() of %s is not its chain of base classes' % c.__name__)
             if is_complex(c) and 'flat' in cur[i]:
+                pk = [n for n, t in c.get_flat_type_info(c).items() if getattr(t.Attributes, 'primary_key', None)]
+                if cur[i]['ids'] != pk:
+                    self.report('order:identifiers', 'get_identifiers() of %s lists %r, the primary-key fields are %r' % (c.__name__, cur[i]['ids'], pk))
                 exp = expected_flat(c)
                 if cur[i]['flat'] != exp:
                     self.report('order:flat:%s' % k, 'flat type info of %s is %r, parents-first declaration order is %r' % (c.__name__, cur[i]['flat'], exp))
@@ -1162,11 +1343,12 @@ class Oracle:
                     kw = [dict(PROT_SPECS[op['prot']]), kw]
                 check_exact(self.ctx, new, pre['src'], kw, 'cust', self.report)
                 if is_complex(new):
-                    if [n for n, _ in pre['src_fields']] != list(new._type_info.keys()):
+                    if op.get('sa') is None and [n for n, _ in pre['src_fields']] != list(new._type_info.keys()):
                         self.report('exact:cust:fields', 'customize changed the field names/order')
-                    if op.get('ca') is None and op.get('caa') is None and [id(t) for _, t in pre['src_fields']] != [id(t) for t in new._type_info.values()]:
+                    if op.get('ca') is None and op.get('caa') is None and op.get('nx') is None and op.get('sa') is None \
+                            and [id(t) for _, t in pre['src_fields']] != [id(t) for t in new._type_info.values()]:
                         self.report('exact:cust:fieldtypes', 'customize without child attributes changed field types')
-                    if flat_names(new) != pre['src_flat']:
+                    if op.get('sa') is None and flat_names(new) != pre['src_flat']:
                         # known edge: a class in the chain was declared on a base that had no fields *then*
                         edge, x = False, pre['src']
                         while x is not None and not edge:
@@ -1179,6 +1361,11 @@ class Oracle:
                         self.report('exact:cust:shared-type-info', 'the customized class shares its _type_info with the source')
                     caa = impl.kw(op['caa']) if op.get('caa') is not None else None
                     ca = {n: impl.kw(v) for n, v in op['ca']} if op.get('ca') is not None else {}
+                    if op.get('nx') is not None:
+                        # child_attrs_noexc: exclude everything, except the fields named
+                        caa = dict(caa or {}, exc=True)
+                        for n, v in op['nx']:
+                            ca[n] = dict(impl.kw(v), exc=False)
                     # child attributes for fields that do not exist yet wait for them (also in variants of this variant)
                     d = dict(self.delayed.get(id(pre['src']), {}))
                     d.update({n: v for n, v in ca.items() if n not in pre['src_flat']})
@@ -1190,6 +1377,27 @@ class Oracle:
                         want = [w for w in (caa, ca.get(n)) if w]
                         if want and n in srcf:
                             check_exact(self.ctx, t, srcf[n], want, 'child', self.report)
+            if k == 'cust' and impl.handed is not None:
+                # the dicts the caller handed over are the caller's: a derivation has no business writing into them
+                live, before = impl.handed
+                for a, b in before.items():
+                    if live[a] != b:
+                        self.report('caller-dict:' + a, 'customize(%s=...) wrote into the dict it was given: %r -> %r' % (a, b, live[a]))
+            if k == 'cust' and op.get('sa') is not None and kind_of(pre['src']) in ('array', 'iterable'):
+                m_old = pre['src_fields'][0][1]
+                m_new = list(new._type_info.values())[0]
+                sa = impl.kw(op['sa'])
+                if m_new.Attributes.max_occurs == INF and (sa.get('max_occurs') == 1 or
+                                                           ('max_occurs' not in sa and m_old.Attributes.max_occurs == 1)):
+                    sa['max_occurs'] = INF      # "hack to default to unbounded arrays" (_set_serializer)
+                check_exact(self.ctx, m_new, m_old, sa, 'serializer_attrs', self.report)
+            if k == 'xcust':
+                if op.get('how') == 'novalidate_freq':
+                    if new.Attributes.validate_freq is not False:
+                        self.report('exact:x:novalidate_freq', 'novalidate_freq() did not switch validate_freq off')
+                xkw_check(impl, new, pre['src'], op['x'], self.report)
+                if kind_of(new) != kind_of(pre['src']):
+                    self.report('exact:x:kind', 'the derived class is of another kind')
             if k in ('mand', 'array') and new is not None and is_complex(new) and is_complex(pre['src']) and \
                     (k == 'mand' or op.get('flat')):
                 # a variant of a variant: the delayed child attributes travel along
@@ -1230,10 +1438,17 @@ class Oracle:
                 for m in op.get('mixins') or ():
                     mix += [n for n in expected_flat(impl.pool[m]) if n not in mix]
                 want = mix + [n for n, _ in op['fields'] if n not in mix]
+                # field types with an `order` attribute are taken out and inserted at that position, one by one
+                tis = dict(new._type_info.items())
+                plain = [n for n in want if tis[n].Attributes.order is None]
+                for n in want:
+                    if tis[n].Attributes.order is not None:
+                        plain.insert(tis[n].Attributes.order, n)
+                want = plain
                 if list(new._type_info.keys()) != want:
                     self.report('order:declared', 'declared %r, _type_info has %r' % (want, list(new._type_info.keys())))
                 for a, v in (op.get('attrs') or []):
-                    if cval(getattr(new.Attributes, a, None)) != cval(unaval(v)):
+                    if cval(getattr(new.Attributes, 'nillable' if a == 'nullable' else a, None)) != cval(unaval(v)):
                         self.report('exact:sub:attrs', 'attribute %s declared in the class statement is not in force' % a)
                 for n, t in op['fields']:
                     if n in mix:
@@ -1284,6 +1499,9 @@ class Oracle:
             if len(set(chain)) != len(chain):
                 self.ctx.hit('output-skipped:redeclared-field')     # written once per declaring class
                 continue
+            if any(t.Attributes.order is not None for t in flat.values()):
+                self.ctx.hit('output-skipped:explicit-order')       # `order` is the documented override of the sequence
+                continue
             try:
                 xml, dct = output_orders(c)
             except Exception as e:
@@ -1292,15 +1510,72 @@ class Oracle:
             self.ctx.hit('output-checked')
             if not order_consistent(xml, names):
                 self.report('order:xml-output', 'XmlDocument wrote %r, declared order is %r' % (xml, names))
+            self.instance_checks(c, flat)
             if not order_consistent(dct, names):
                 self.report('order:json-output', 'JsonDocument wrote %r, declared order is %r' % (dct, names))
+
+
+def _instance_checks(self, c, flat):
+    """everything an instance does with the field order: positional construction, item access, repr, as_dict,
+    defaults, the flattened (HttpRpc) key view"""
+    keys = list(flat.keys())
+    own = list(c._type_info.keys())
+    if c.__orig__ is not None:
+        return          # instances are instances of the original class
+    if any(t.Attributes.validate_on_assignment or t.Attributes.read_only for t in flat.values()) or \
+            any(isinstance(getattr(c, k, None), property) for k in flat):
+        # (assignment checkers are installed with a late-binding closure over the field name - all of them guard the
+        # last field - which is about assignment validation, not about derivation or order)
+        self.ctx.hit('instance-skipped:validate_on_assignment')
+        return
+    try:
+        vals = list(range(100, 100 + len(keys)))
+        inst = c.get_serialization_instance(vals)
+        got = [getattr(inst, k, None) for k in keys]
+        if got != vals:
+            self.report('order:positional', 'get_serialization_instance(list) of %s assigns %r to %r' % (c.__name__, got, keys))
+        for i, k in enumerate(own):
+            if inst[i] != getattr(inst, k, None):
+                self.report('order:getitem', 'instance[%d] of %s is not its field %r' % (i, c.__name__, k))
+        if len(inst) != len(own):
+            self.report('order:len', 'len(instance) of %s is %d, it has %d own fields' % (c.__name__, len(inst), len(own)))
+        inst2 = c.get_serialization_instance(dict(zip(keys, vals)))
+        if [getattr(inst2, k, None) for k in keys] != vals:
+            self.report('order:from-dict', 'get_serialization_instance(dict) of %s loses values' % c.__name__)
+        rep = repr(inst)
+        pos = [rep.find('%s=' % k) for k in keys]
+        if any(p < 0 for p in pos) or pos != sorted(pos):
+            if len(set(keys)) == len(keys) and not any(a != b and a.endswith(b) for a in keys for b in keys):
+                self.report('order:repr', 'repr(instance) of %s lists the fields as %r' % (c.__name__, rep[:120]))
+        if list(inst.as_dict().keys()) != keys:
+            self.report('order:as_dict', 'as_dict() of %s has keys %r, declared order is %r' % (c.__name__, list(inst.as_dict().keys()), keys))
+        # the defaults of the field types are what a fresh instance starts with
+        fresh = (c.__orig__ or c)()
+        for k, t in (c.__orig__ or c).get_flat_type_info(c.__orig__ or c).items():
+            d = t.Attributes.default
+            if d is not None and getattr(fresh, k, None) != d:
+                self.report('exact:default', 'field %r of %s has default %r, a fresh instance has %r' % (k, c.__name__, d, getattr(fresh, k, None)))
+        self.ctx.hit('instance-checked')
+    except Exception as e:
+        self.ctx.hit('instance-skipped:' + type(e).__name__)
+    try:
+        sti = c.get_simple_type_info(c)
+        top = [k for k in sti.keys() if '.' not in k]
+        if not order_consistent(top, keys):
+            self.report('order:simple-type-info', 'get_simple_type_info of %s lists %r, declared order is %r' % (c.__name__, top, keys))
+        self.ctx.hit('simple-type-info-checked')
+    except Exception as e:
+        self.ctx.hit('simple-type-info-skipped:' + type(e).__name__)
+
+
+Oracle.instance_checks = _instance_checks
 
 
 def pre_facts(impl, op):
     """what the oracle needs to know about the state before the operation"""
     pre = {}
     k = op['k']
-    if k in ('cust', 'mand', 'array', 'xmlattr'):
+    if k in ('cust', 'mand', 'array', 'xmlattr', 'xcust'):
         src = impl.pool[op['src']]
         pre['src'] = src
         ti = getattr(src, '_type_info', None)
@@ -1401,7 +1676,7 @@ RECURSIVE = [{'k': 'sub', 'name': 'RA', 'base': None, 'ns': None, 'fields': [['a
 
 
 # ------------------------------------------------------------------------------------ running histories
-def run_history(ctx, hid, ops=None, rng=None, length=0, with_schema=False, oracle=True):
+def run_history(ctx, hid, ops=None, rng=None, length=0, with_schema=False, oracle=True, exotic=False):
     """one history on the implementation with the T3 oracle; returns (ops, [(res, delta)...])"""
     impl = Impl()
     orc = Oracle(ctx, impl, hid, with_schema) if oracle else None
@@ -1424,7 +1699,12 @@ def run_history(ctx, hid, ops=None, rng=None, length=0, with_schema=False, oracl
     done = []
     n = len(ops) if ops is not None else length
     for step in range(n):
-        op = ops[step] if ops is not None else gen_op(rng, impl, step, hid)
+        if ops is not None:
+            op = ops[step]
+        elif exotic and step > 1 and rng.random() < 0.4:
+            op = gen_xop(rng, impl)
+        else:
+            op = gen_op(rng, impl, step, hid)
         pre = pre_facts(impl, op) if orc else {}
         try:
             new = impl.apply(op)
@@ -1604,6 +1884,17 @@ FACT_WITNESS = {
                    {'k': 'sub', 'name': 'K2', 'base': 10, 'ns': 'ns.a', 'fields': [['c', I_], ['y', I_]], 'mixins': [8, 9]},
                    {'k': 'cust', 'src': 12, 'kw': _kw(min_occurs=1)}, {'k': 'append', 'c': 12, 'name': 'w', 't': U_},
                    {'k': 'sub', 'name': 'K3', 'base': 11, 'ns': 'ns.a', 'fields': [['d', I_]], 'mixins': [9], 'attrs': _kw(foo=1)}],
+    'noexc+order+sa': [{'k': 'sub', 'name': 'NA', 'base': None, 'ns': 'ns.a', 'fields': [['a', I_], ['b', U_], ['c', I_]]},
+                       {'k': 'cust', 'src': 8, 'kw': [], 'nx': [['a', _kw(max_occurs=2)], ['zz', _kw(min_occurs=3)]],
+                        'caa': _kw(min_occurs=1), 'ca': [['b', _kw(min_occurs=2)], ['a', _kw(sub_name='alt')]]},
+                       {'k': 'cust', 'src': 8, 'kw': [], 'nx': [['c', []]]},
+                       {'k': 'append', 'c': 8, 'name': 'zz', 't': I_},
+                       {'k': 'cust', 'src': U_, 'kw': _kw(order=0)}, {'k': 'cust', 'src': I_, 'kw': _kw(order=1)},
+                       {'k': 'sub', 'name': 'OB', 'base': None, 'ns': 'ns.a', 'fields': [['x', I_], ['y', 11], ['z', 12], ['w', U_]]},
+                       {'k': 'array', 'src': I_, 'kw': []},
+                       {'k': 'cust', 'src': 14, 'kw': _kw(max_occurs=3), 'sa': _kw(min_occurs=1)},
+                       {'k': 'cust', 'src': 15, 'kw': [], 'sa': _kw(nillable=False, sub_ns='ns.sub')},
+                       {'k': 'sub', 'name': 'OC', 'base': 13, 'ns': 'ns.a', 'fields': [['q', 12], ['r', 15]], 'attrs': _kw(nullable=False)}],
     'mslRule': [{'k': 'cust', 'src': I32_, 'kw': _kw(ge=0)}, {'k': 'cust', 'src': D_, 'kw': _kw(total_digits=5)}],
     'colCopy': [{'k': 'cust', 'src': U_, 'kw': _kw(max_len=32)}, {'k': 'cust', 'src': 8, 'kw': _kw(pk=True)},
                 {'k': 'cust', 'src': 8, 'kw': _kw(min_len=2)},
@@ -1648,6 +1939,10 @@ def run(ctx):
         ctx.hit('len:%d' % length)
         if hid % 25 == 24:
             gc.collect()
+    # ---- histories with keywords outside the Lean model (callables, prot_attrs, foreign keys, store_as, ...): T3 only
+    for hid in range(200 if ctx.thorough else 24):
+        run_history(ctx, 'x%d' % hid, rng=ctx.rng, length=ctx.rng.choice([8, 12, 16]), with_schema=False, exotic=True)
+        ctx.hit('exotic-history')
     # ---- T2
     compare_with_model(ctx, runs)
     # ---- other hash seeds
